@@ -32,8 +32,9 @@ theorem sok_markCaret {s : VS} {c : Prop} (hs : SOk s c) : SOk (markCaret s) c :
   rw [markCaret_regs]; exact hs.2
 
 /-- **the command switch of `vi()`**: no command traps, and each keeps the invariant -/
-theorem wp_commandTail (hE : EngineOk) (hX1 : ExNoTrap) (hX2 : ExKeeps) {s : VS} (hs : SOk s True) (hr : RowOk s)
-    (hoff : s.ed.xoff ≤ slenAt (lines s) s.ed.xrow) (hmk : MarksIn (markCaret s)) (hsl : SlashOk s) (Q : Option Nat → VS → Prop)
+theorem wp_commandTail {s : VS} (hs : SOk s True) (hr : RowOk s)
+    (hoff : s.ed.xoff ≤ slenAt (lines s) s.ed.xrow) (hmk : MarksIn (markCaret s)) (hsl : SearchOk s) (hcol : ColonOk s)
+    (Q : Option Nat → VS → Prop)
     (hQ : ∀ r s', CtPost r s' → Q r s') : wp commandTail Q s := by
   unfold commandTail
   refine (wp_bind _ _ _ _).mpr ?_
@@ -60,7 +61,7 @@ theorem wp_commandTail (hE : EngineOk) (hX1 : ExNoTrap) (hX2 : ExKeeps) {s : VS}
     dsimp only
     rw [e1]
   have hmk2 : MarksIn (markCaret s1) := hmk.of_lb (by rw [hed])
-  have hsl2 : SlashOk (markCaret s1) := by
+  have hsl2 : SearchOk (markCaret s1) := by
     refine hsl.mono ?_ hl2 ?_ ?_
     · show allQ (markCaret s1) <:+ allQ s
       have : allQ (markCaret s1) = allQ s1 := rfl
@@ -199,8 +200,8 @@ theorem wp_commandTail (hE : EngineOk) (hX1 : ExNoTrap) (hX2 : ExKeeps) {s : VS}
     rw [modEd_regs]; exact hs2.2
   -- :
   wpif h
-  · wpn
-    refine wp_viPrompt _ _ hs2.paste _ (fun r s3 e3 hr3 => ?_)
+  · refine (wp_bind_eqn _ _ _ _).mpr ?_
+    refine wp_viPrompt _ _ hs2.paste _ (fun r s3 e3 hr3 hm3 => ?_)
     have hs3 : SOk s3 True := (MvF.of_EdF e3).sok hs2
     have hr3' : RowOk s3 := rowOk_congr hr2 e3.xrow e3.lines
     cases r with
@@ -215,7 +216,14 @@ theorem wp_commandTail (hE : EngineOk) (hX1 : ExNoTrap) (hX2 : ExKeeps) {s : VS}
           split
           · exact noNul_cons.mpr ⟨by decide, hln⟩
           · exact hln
-        refine wp_exCommandV hX1 hX2 _ hs3 hr3' hln2 _ (fun rc s4 h4 => ?_)
+        have hat : ColonAt 58 s ({ s1 with ed := ed2 } : VS) := by
+          refine ⟨?_, ?_⟩
+          · show ed2 = (markCaret s).ed
+            rw [← hed2]; unfold markCaret; dsimp only; rw [e1]
+          · show 58 :: allQ s1 <:+ allQ s
+            have hc58 : c = 58 := by simpa using h
+            rw [q1, hc58]; exact List.suffix_refl _
+        refine wp_exCommandV (hcol.colon _ ln s3 hat hm3 (by simpa using hemp)) _ (fun rc s4 h4 => ?_)
         wpn
         wpif hq
         · refine (wp_pure _ _ _).mpr (hQ _ _ (Or.inl ?_))
@@ -224,7 +232,7 @@ theorem wp_commandTail (hE : EngineOk) (hX1 : ExNoTrap) (hX2 : ExKeeps) {s : VS}
   -- c d y ! > <
   wpif h
   · wpn
-    exact wp_vcMotion hE _ hs2 hr2 hmk2 hsl2 _ (fun m s3 hp => hfinO _ _ _ _ hp)
+    exact wp_vcMotion _ hs2 hr2 hmk2 hsl2 _ (fun m s3 hp => hfinO _ _ _ _ hp)
   -- i I a A o O
   wpif h
   · wpn
@@ -280,7 +288,7 @@ theorem wp_commandTail (hE : EngineOk) (hX1 : ExNoTrap) (hX2 : ExKeeps) {s : VS}
     have hl3 : lines s3 = lines ({ s1 with ed := ed2 } : VS) := by unfold Vi.lines; rw [e3]
     wpif hk
     · wpn
-      refine wp_vcMotion hE _ h3t (rowOk_congr hr2 (by rw [e3]) hl3) (hmk2.of_lb (by rw [e3])) ?_ _
+      refine wp_vcMotion _ h3t (rowOk_congr hr2 (by rw [e3]) hl3) (hmk2.of_lb (by rw [e3])) ?_ _
         (fun m s4 hp => hfinO _ _ _ _ hp)
       exact hsl2.pfx (pfx_read e3 q3)
     wpif hk
@@ -289,11 +297,11 @@ theorem wp_commandTail (hE : EngineOk) (hX1 : ExNoTrap) (hX2 : ExKeeps) {s : VS}
     · wpn; exact hfin _ _ _ (h3.congr rfl rfl)
     · exact hfin _ _ _ h3
   -- x X C D s S Y ~ : an operator on a pushed-back motion key
-  have hvb : ∀ (k : Int) (cmd : Nat), k ≠ 47 →
+  have hvb : ∀ (k : Int) (cmd : Nat), k ∉ searchKeys →
       wp (vcMotion cmd) (fun m s' => wp (fin m) Q s')
         ({ ({ s1 with ed := ed2 } : VS) with vibuf := k :: s1.vibuf } : VS) := by
     intro k cmd hk
-    refine wp_vcMotion (c := True) (s := ({ ({ s1 with ed := ed2 } : VS) with vibuf := k :: s1.vibuf } : VS)) hE _ ?_ ?_ ?_ ?_ _
+    refine wp_vcMotion (c := True) (s := ({ ({ s1 with ed := ed2 } : VS) with vibuf := k :: s1.vibuf } : VS)) _ ?_ ?_ ?_ ?_ _
       (fun m s4 hp => hfinO _ _ _ _ hp)
     · exact hs2.congr rfl rfl
     · exact rowOk_congr hr2 rfl rfl
@@ -320,12 +328,21 @@ theorem wp_commandTail (hE : EngineOk) (hX1 : ExNoTrap) (hX2 : ExKeeps) {s : VS}
   -- ZZ
   wpif h
   · wpn
-    refine wp_viRead _ _ (fun k s3 e3 _ => ?_)
+    refine wp_viRead _ _ (fun k s3 e3 q3 => ?_)
     have h3t : SOk s3 True := hs2.congr (by rw [e3]) (by rw [e3])
     have hl3 : lines s3 = lines ({ s1 with ed := ed2 } : VS) := by unfold Vi.lines; rw [e3]
     wpif hk
     · wpn
-      refine wp_exCommandV hX1 hX2 _ h3t (rowOk_congr hr2 (by rw [e3]) hl3) noNul_strOf_x _ (fun rc s4 h4 => ?_)
+      have hat : ColonAt 90 s s3 := by
+        refine ⟨?_, ?_⟩
+        · rw [e3]
+          show ed2 = (markCaret s).ed
+          rw [← hed2]; unfold markCaret; dsimp only; rw [e1]
+        · refine List.IsSuffix.trans (l₂ := allQ s1) ?_ (by rw [q1]; exact List.suffix_cons _ _)
+          have hk90 : k = 90 := by simpa using hk
+          show 90 :: allQ s3 <:+ allQ ({ s1 with ed := ed2 } : VS)
+          rw [q3, hk90]; exact List.suffix_refl _
+      refine wp_exCommandV (hcol.zz s3 hat) _ (fun rc s4 h4 => ?_)
       exact hfin _ _ _ h4
     · exact hfin _ _ _ h3t.weaken
   -- ~
